@@ -196,6 +196,10 @@ pub struct CatWorld {
     pub cfg: NodeCfg,
     pub dir: PathBuf,
     pub tr: Transports,
+    /// administrative commands go over HTTP/JSON (needs tr.http)
+    pub http_admin: bool,
+    /// credential probes are repeated over HTTP (the oracle switches this on in canonical states)
+    pub http_probe_enabled: bool,
     pub root: Option<IggyClient>,
     pub extra: [Option<IggyClient>; 2],
     pub seq: u64,
@@ -203,6 +207,57 @@ pub struct CatWorld {
     pub root_password: String,
     /// current (username, password) of user 2 as acknowledged by the server
     pub cred2: Option<(String, String)>,
+}
+
+/// One HTTP/1.1 request on a fresh connection; returns (status, body).
+pub async fn raw_http(addr: std::net::SocketAddr, method: &str, path: &str, auth: Option<&str>, body: &str) -> Result<(u16, String), String> {
+    use tokio::io::{AsyncReadExt, AsyncWriteExt};
+    let mut s = tokio::net::TcpStream::connect(addr).await.map_err(|e| format!("connect: {e}"))?;
+    let req = format!(
+        "{method} {path} HTTP/1.1\r\nHost: localhost\r\nConnection: close\r\nContent-Type: application/json\r\nContent-Length: {}\r\n{}\r\n{}",
+        body.len(),
+        auth.map(|a| format!("Authorization: {a}\r\n")).unwrap_or_default(),
+        body
+    );
+    s.write_all(req.as_bytes()).await.map_err(|e| format!("write: {e}"))?;
+    let mut buf = Vec::new();
+    match tokio::time::timeout(std::time::Duration::from_secs(20), s.read_to_end(&mut buf)).await {
+        Err(_) => return Err("no answer within 20 s".into()),
+        Ok(Err(e)) if buf.is_empty() => return Err(format!("read: {e}")),
+        _ => {}
+    }
+    let text = String::from_utf8_lossy(&buf).to_string();
+    let status = text.split_whitespace().nth(1).and_then(|c| c.parse::<u16>().ok()).ok_or(format!("not an HTTP answer: {:?}", text.chars().take(40).collect::<String>()))?;
+    let mut body = text.split_once("\r\n\r\n").map(|x| x.1.to_string()).unwrap_or_default();
+    if text.to_ascii_lowercase().contains("transfer-encoding: chunked") {
+        // de-chunk (sizes in hex on their own lines)
+        let mut out = String::new();
+        let mut rest = body.as_str();
+        while let Some((size, tail)) = rest.split_once("\r\n") {
+            let n = usize::from_str_radix(size.trim(), 16).unwrap_or(0);
+            if n == 0 || tail.len() < n {
+                break;
+            }
+            out.push_str(&tail[..n]);
+            rest = tail[n..].trim_start_matches("\r\n");
+        }
+        body = out;
+    }
+    Ok((status, body))
+}
+
+/// POSTs a login body; Some(user id) if an access token was issued AND that token is accepted by an
+/// endpoint that needs authentication but no permission.
+async fn http_login_works(addr: std::net::SocketAddr, path: &str, body: String) -> Result<Option<u32>, String> {
+    let (st, txt) = raw_http(addr, "POST", path, None, &body).await?;
+    if st != 200 {
+        return Ok(None);
+    }
+    let v: Value = serde_json::from_str(&txt).map_err(|e| format!("login answer is not JSON ({e}): {txt}"))?;
+    let Some(token) = v["access_token"]["token"].as_str() else { return Err(format!("login answered 200 without an access token: {txt}")) };
+    let user_id = v["user_id"].as_u64().unwrap_or(0) as u32;
+    let (st, _) = raw_http(addr, "GET", "/personal-access-tokens", Some(&format!("Bearer {token}")), "").await?;
+    Ok(if st == 200 { Some(user_id) } else { None })
 }
 
 fn errs(e: &IggyError) -> String {
@@ -220,6 +275,8 @@ impl CatWorld {
             cfg: tpl.cfg.clone(),
             dir,
             tr,
+            http_admin: tr.http,
+            http_probe_enabled: false,
             root: None,
             extra: [None, None],
             seq: 0,
@@ -249,7 +306,7 @@ impl CatWorld {
         if self.root.is_none() {
             // with the HTTP transport on, the administrative connection speaks HTTP/JSON (the extra
             // clients that join groups stay on TCP: membership needs a connection)
-            let c = if self.tr.http { self.node.http_client() } else { self.node.tcp_client() };
+            let c = if self.tr.http && self.http_admin { self.node.http_client() } else { self.node.tcp_client() };
             let pw = self.root_password.clone();
             let r = self.node.block_on(async { c.login_user("iggy", &pw).await });
             if let Err(e) = r {
@@ -520,11 +577,27 @@ impl CatWorld {
         let c = self.node.tcp_client();
         let r = self.node.try_block_on(async { c.login_user(user, pw).await });
         drop(c);
-        match r {
-            Ok(Ok(_)) => Ok(true),
-            Ok(Err(_)) => Ok(false),
-            Err(p) => Err(format!("PANIC during login: {p}")),
+        let tcp = match r {
+            Ok(Ok(_)) => true,
+            Ok(Err(_)) => false,
+            Err(p) => return Err(format!("PANIC during login: {p}")),
+        };
+        if self.tr.http && self.http_probe_enabled {
+            // the same credential over HTTP/JSON must be judged the same way (raw requests: building an SDK
+            // HTTP client per attempt costs more than the server's work)
+            let addr = self.node.http_addr.unwrap();
+            let body = serde_json::json!({"username": user, "password": pw}).to_string();
+            let r = self.node.try_block_on(http_login_works(addr, "/users/login", body));
+            let http = match r {
+                Ok(Ok(b)) => b.is_some(),
+                Ok(Err(e)) => return Err(format!("MACHINERY: {e}")),
+                Err(p) => return Err(format!("PANIC during login over HTTP: {p}")),
+            };
+            if http != tcp {
+                return Err(format!("login {user}/{pw} is {} over TCP and {} over HTTP", if tcp { "accepted" } else { "refused" }, if http { "accepted" } else { "refused" }));
+            }
         }
+        Ok(tcp)
     }
 
     /// Tries a raw token on a fresh connection; on success also checks that the connection is
@@ -538,10 +611,60 @@ impl CatWorld {
             Ok::<u32, IggyError>(id.user_id)
         });
         drop(c);
+        let tcp = match r {
+            Ok(Ok(id)) => Some(id),
+            Ok(Err(_)) => None,
+            Err(p) => return Err(format!("PANIC during token login: {p}")),
+        };
+        if self.tr.http && self.http_probe_enabled {
+            let addr = self.node.http_addr.unwrap();
+            let body = serde_json::json!({"token": token}).to_string();
+            let r = self.node.try_block_on(http_login_works(addr, "/personal-access-tokens/login", body));
+            let http = match r {
+                Ok(Ok(b)) => b,
+                Ok(Err(e)) => return Err(format!("MACHINERY: {e}")),
+                Err(p) => return Err(format!("PANIC during token login over HTTP: {p}")),
+            };
+            if http != tcp {
+                return Err(format!("a personal access token logs in as user {tcp:?} over TCP and as user {http:?} over HTTP"));
+            }
+        }
+        Ok(tcp)
+    }
+
+    /// HTTP: an access token must stop working once its session logged out (the token itself is
+    /// presented again, which the SDK client would not do).
+    pub fn http_logout_probe(&mut self) -> Result<(), String> {
+        let Some(addr) = self.node.http_addr else { return Ok(()) };
+        let pw = self.root_password.clone();
+        let r = self.node.try_block_on(async {
+            let body = format!(r#"{{"username":"iggy","password":"{pw}"}}"#);
+            let (st, txt) = raw_http(addr, "POST", "/users/login", None, &body).await?;
+            if st != 200 {
+                return Err(format!("root login over HTTP answered {st}"));
+            }
+            let v: Value = serde_json::from_str(&txt).map_err(|e| format!("login answer is not JSON: {e}"))?;
+            let token = v["access_token"]["token"].as_str().ok_or("login answer carries no access token")?.to_string();
+            let bearer = format!("Bearer {token}");
+            let (st, _) = raw_http(addr, "GET", "/personal-access-tokens", Some(&bearer), "").await?;
+            if st != 200 {
+                return Err(format!("a freshly issued access token was answered with HTTP {st}"));
+            }
+            let (st, _) = raw_http(addr, "DELETE", "/users/logout", Some(&bearer), "").await?;
+            if !(200..300).contains(&st) {
+                return Err(format!("logout over HTTP answered {st}"));
+            }
+            for path in ["/personal-access-tokens", "/streams", "/users"] {
+                let (st, _) = raw_http(addr, "GET", path, Some(&bearer), "").await?;
+                if st != 401 {
+                    return Err(format!("GET {path} with the access token of a session that had logged out was answered with HTTP {st}, not 401"));
+                }
+            }
+            Ok(())
+        });
         match r {
-            Ok(Ok(id)) => Ok(Some(id)),
-            Ok(Err(_)) => Ok(None),
-            Err(p) => Err(format!("PANIC during token login: {p}")),
+            Ok(x) => x,
+            Err(p) => Err(format!("PANIC during the HTTP logout probe: {p}")),
         }
     }
 
